@@ -2,6 +2,6 @@
 # usage: try_patch.sh <patch.diff|REV:<rev>> <check args...>   — run ./check against a scratch worktree of /repo (HEAD + patch, or another revision)
 H="$(cd "$(dirname "$0")/.." && pwd)"; cd "$H"
 W=/tmp/trypatch-$$; P="$1"; shift
-case "$P" in REV:*) git -C /repo worktree add -q --detach $W "${P#REV:}";; *) git -C /repo worktree add -q --detach $W HEAD && git -C $W apply "$P" || { git -C /repo worktree remove --force $W; exit 3; };; esac
+case "$P" in REV:*) git -C /repo worktree add -q --detach $W "${P#REV:}";; *) git -C /repo worktree add -q --detach $W ${TRY_BASE:-HEAD} && git -C $W apply "$P" || { git -C /repo worktree remove --force $W; exit 3; };; esac
 VERIF_REPO=$W VERIF_EVIDENCE_DIR=$H/work/ev VERIF_REPLAY_DIR=$H/work/rp timeout ${TRY_TIMEOUT:-900} ./check "$@" 2>&1 | grep -v WARNING | grep "^gosym\|VIOLATION\|PROBLEM\|^check\|KNOWN\|MISMATCH" | cut -c1-400
 git -C /repo worktree remove --force $W
